@@ -1,21 +1,27 @@
 /* Layer-2 contract stubs (assumed here, proved in units mtbdd_l1 / mtbdd_rc against concrete memory; the bridge
    "fields of an allocated node never change" is the frame obligation of every function of those units). */
 _Bool nondet_bool(void);
+#ifndef EXTRA_UNFOLD_INT
+#define EXTRA_UNFOLD_INT(n) 1
+#define EXTRA_UNFOLD_LEAF(n) 1
+#endif
 #define PRE_INT(p)  __CPROVER_assert((p)->f0 != 0 && ISINT((p)->f0), "accessor precondition: internal node")
-uint64_t* GET_VAR(NP* p)   { PRE_INT(p); __CPROVER_assume(UNFOLD_INT(p->f0)); uint64_t* c = &ring_var[ring_i++ & 3]; *c = T_VAR[p->f0]; return c; }
-uint64_t* GET_VAR_C(NP* p) { PRE_INT(p); __CPROVER_assume(UNFOLD_INT(p->f0)); uint64_t* c = &ring_var[ring_i++ & 3]; *c = T_VAR[p->f0]; return c; }
-uint64_t GET_LOW(NP* p)    { PRE_INT(p); __CPROVER_assume(UNFOLD_INT(p->f0)); return T_LOW[p->f0]; }
-uint64_t GET_LOW_C(NP* p)  { PRE_INT(p); __CPROVER_assume(UNFOLD_INT(p->f0)); return T_LOW[p->f0]; }
-uint64_t GET_HIGH(NP* p)   { PRE_INT(p); __CPROVER_assume(UNFOLD_INT(p->f0)); return T_HIGH[p->f0]; }
-uint64_t GET_HIGH_C(NP* p) { PRE_INT(p); __CPROVER_assume(UNFOLD_INT(p->f0)); return T_HIGH[p->f0]; }
-uint32_t* GET_DATA(NP* p)  { __CPROVER_assert(p->f0 != 0 && ISLEAF(p->f0), "accessor precondition: leaf node"); __CPROVER_assume(UNFOLD_LEAF(p->f0)); uint32_t* c = &ring_data[ring_i++ & 3]; *c = T_DATA[p->f0]; return c; }
+uint64_t* GET_VAR(NP* p)   { PRE_INT(p); __CPROVER_assume(UNFOLD_INT(p->f0) && EXTRA_UNFOLD_INT(p->f0)); uint64_t* c = &ring_var[ring_i++ & 3]; *c = T_VAR[p->f0]; return c; }
+uint64_t* GET_VAR_C(NP* p) { PRE_INT(p); __CPROVER_assume(UNFOLD_INT(p->f0) && EXTRA_UNFOLD_INT(p->f0)); uint64_t* c = &ring_var[ring_i++ & 3]; *c = T_VAR[p->f0]; return c; }
+uint64_t GET_LOW(NP* p)    { PRE_INT(p); __CPROVER_assume(UNFOLD_INT(p->f0) && EXTRA_UNFOLD_INT(p->f0)); return T_LOW[p->f0]; }
+uint64_t GET_LOW_C(NP* p)  { PRE_INT(p); __CPROVER_assume(UNFOLD_INT(p->f0) && EXTRA_UNFOLD_INT(p->f0)); return T_LOW[p->f0]; }
+uint64_t GET_HIGH(NP* p)   { PRE_INT(p); __CPROVER_assume(UNFOLD_INT(p->f0) && EXTRA_UNFOLD_INT(p->f0)); return T_HIGH[p->f0]; }
+uint64_t GET_HIGH_C(NP* p) { PRE_INT(p); __CPROVER_assume(UNFOLD_INT(p->f0) && EXTRA_UNFOLD_INT(p->f0)); return T_HIGH[p->f0]; }
+uint32_t* GET_DATA(NP* p)  { __CPROVER_assert(p->f0 != 0 && ISLEAF(p->f0), "accessor precondition: leaf node"); __CPROVER_assume(UNFOLD_LEAF(p->f0) && EXTRA_UNFOLD_LEAF(p->f0)); uint32_t* c = &ring_data[ring_i++ & 3]; *c = T_DATA[p->f0]; return c; }
 uint64_t* GET_LEAF_RC(uint64_t n) { __CPROVER_assert(n != 0 && ISLEAF(n), "accessor precondition: leaf node"); uint64_t v; uint64_t* c = &ring_rc[ring_i++ & 1]; *c = v; g_rcread_node = n; g_rcread_val = v; g_rcread_epoch = g_rc_epoch; return c; }
 void INC_RC(uint64_t n)    { __CPROVER_assert(n != 0, "IncrementRefCnt precondition: non-null node"); g_inc_calls++; g_inc_arg = n; g_rc_epoch++; }
 /* spawnLeaf / spawnInternal: contracts proved in unit mtbdd_rc (POST_SPAWN_LEAF / POST_SPAWN_INT there), read over the tables */
 uint64_t SPAWN_LEAF(uint32_t* d) { uint64_t r; __CPROVER_assume(r != 0 && ISLEAF(r) && T_DATA[r] == *d && UNFOLD_LEAF(r)); return r; }
 uint64_t SPAWN_INT(uint64_t l, uint64_t h, uint64_t* v) {
   __CPROVER_assert(l != 0 && h != 0, "spawnInternal precondition: children non-null");
+#ifndef NO_REDUCED_CHECK
   __CPROVER_assert(l != h, "C17 reduced: spawnInternal is never asked for low == high");
+#endif
   __CPROVER_assert(*v < UINT64_MAX && LEVEL(l) <= *v && LEVEL(h) <= *v, "C17 ordered: variables of the children are below the new node's variable");
   uint64_t r; __CPROVER_assume(r != 0 && ISINT(r) && T_LOW[r] == l && T_HIGH[r] == h && T_VAR[r] == *v && UNFOLD_INT(r)); g_rc_epoch++; g_spawn_int_calls++; return r; }
 void DLEAF(uint64_t n) { __CPROVER_assert(n != 0 && ISLEAF(n) && g_rcread_node == n && g_rcread_val == 0 && g_rcread_epoch == g_rc_epoch, "C18 precondition of disposeOfLeafNode: its reference count was just read as 0");
